@@ -30,7 +30,13 @@ STATE_NAME = {"closed": "closed", "open": "open", "half_open": "half"}
 class RealBreaker:
     """A real CircuitBreaker on a virtual clock, observed through its public API only."""
 
-    def __init__(self, cfg: dict) -> None:
+    # fine time base: 1 unit = 1e-7 s; tick t happens at instant t * (FINE - 1) + FINE_K, i.e. with a
+    # sub-microsecond offset that shrinks as time goes on - ages are a few tenths of a microsecond
+    # shorter than their whole-tick value, never exactly on a boundary
+    FINE, FINE_K = 156250, 50000
+
+    def __init__(self, cfg: dict, fine: bool = False) -> None:
+        self.fine = fine
         redress = import_redress()
         from redress.circuit import CircuitBreaker
         from redress.errors import ErrorClass
@@ -50,6 +56,8 @@ class RealBreaker:
             return int(x) if shape % 2 and x == int(x) else x
 
         def clock():
+            if self.fine:
+                return vtime.BASE_TICKS * vtime.TICK + self.instant(self.now) * 1e-7
             return whole((vtime.BASE_TICKS + self.now) * vtime.TICK)
         self.b = CircuitBreaker(
             failure_threshold=cfg["thr"],
@@ -73,6 +81,10 @@ class RealBreaker:
 
     def _state(self) -> str:
         return STATE_NAME.get(self.b.state.value, str(self.b.state.value))
+
+    def instant(self, t: int) -> int:
+        """the instant of tick t in the fine time base (units of 1e-7 s)"""
+        return t * (self.FINE - 1) + self.FINE_K
 
     def do(self, op: str, k: str, t: int) -> dict:
         self.now = t
@@ -98,7 +110,8 @@ class RealBreaker:
                 raise ValueError(op)
         except Exception as exc:  # noqa: BLE001 - a raising operation is an observation
             ev = f"EXC:{type(exc).__name__}"
-        return {"op": op, "k": k, "t": t, "allowed": allowed, "ev": str(ev), "state": self._state()}
+        return {"op": op, "k": k, "t": self.instant(t) if self.fine else t, "allowed": allowed,
+                "ev": str(ev), "state": self._state()}
 
 
 def concretise(cfg: dict, cmap: dict[str, str]) -> dict:
@@ -179,7 +192,7 @@ def replay_graph(configs, edges, rng: random.Random, n_walks: int):
 # ---------------------------------------------------------------------------
 # C->S: random histories on the real object
 # ---------------------------------------------------------------------------
-def random_history(rng: random.Random, length: int) -> dict:
+def random_history(rng: random.Random, length: int, fine: bool = False) -> dict:
     W = rng.choice([1, 2, 3, 5, 8, 13, 40])
     R = rng.choice([1, 2, 3, 4, 7, 16, 40])
     thr = rng.choice([1, 2, 2, 3, 3, 4, 5])
@@ -189,11 +202,16 @@ def random_history(rng: random.Random, length: int) -> dict:
         cthr[c] = rng.choice([1, 2, 3])
     cfg = {"thr": thr, "W": W, "R": R, "trip": trip, "cthr": cthr}
     counted = sorted(set(trip) | {c for c, n in cthr.items() if n})
-    rb = RealBreaker(cfg)
+    rb = RealBreaker(cfg, fine=fine)
     t = 0
     opened_at = None
     evs = []
-    if counted and rng.random() < 0.5:
+    if fine:
+        # the trace is judged in the fine time base: window and timeout in units of 1e-7 s
+        out_cfg = dict(cfg, W=W * RealBreaker.FINE, R=R * RealBreaker.FINE)
+    else:
+        out_cfg = cfg
+    if counted and not fine and rng.random() < 0.5:
         # cycle-shaped history: fail until open, wait for recovery, probe, settle, fail again soon
         while len(evs) < length:
             o = rb.do("fail", rng.choice(counted), t)
@@ -211,7 +229,7 @@ def random_history(rng: random.Random, length: int) -> dict:
                     evs.append(rb.do("cancel", "-", t))
                     evs.append(rb.do("allow", "-", t))
             t += rng.choice([0, 0, 1, 1, W - 1, W])
-        return {"cfg": cfg, "ev": evs[:length + 4]}
+        return {"cfg": out_cfg, "ev": evs[:length + 4]}
     for _ in range(length):
         # clock advance: favour the boundaries of both windows
         if opened_at is not None and rng.random() < 0.5:
@@ -235,7 +253,7 @@ def random_history(rng: random.Random, length: int) -> dict:
         elif o["state"] == "closed":
             opened_at = None
         evs.append(o)
-    return {"cfg": cfg, "ev": evs}
+    return {"cfg": out_cfg, "ev": evs}
 
 
 def tlc_validate(traces: list[dict], tag: str) -> list[dict]:
@@ -275,6 +293,8 @@ def check(prop: str, tier: str, light: bool = False) -> Report:
     n_traces, n_ops, mism, samples = g["n_traces"], g["n_ops"], g["mismatches"], g["samples"]
     n_rand = (700 if light else 1500) if tier == "quick" else 20000
     rand = [random_history(rng, 40) for _ in range(n_rand)]
+    # ... a third of them again on a time base that is off the microsecond grid
+    rand += [random_history(rng, 40, fine=True) for _ in range(n_rand // 3)]
     verdicts = tlc_validate(mism + rand, "main")
     canary(rand[0])
     nonconf = 0
